@@ -52,6 +52,8 @@ def check(ck):
     H.hierarchy_depth_shape(ck, 'R15.11')
     r15_13(ck)
     r15_15(ck)
+    from . import c06 as _c06
+    _c06.r06_7(ck, rule='R15.16')
     ck.rule('R15.14', 'recursions hand their mode parameters on: '
             '_get_composite_state_recur (state_type, config), deep_compare '
             'and deep_merge_check (conflict detection of declarations) '
@@ -351,6 +353,18 @@ def r15_3(ck):
     ok = bool(rec) and any(
         any(a[0] == 'in' and a[2] == 'self.inner'
             for a in cfg.guards(cfg.node(c))) for c in rec)
+    if not ok and rec:
+        # guard-clause form: the call is reached for every key except those
+        # skipped by a `continue` under "not a child (and nothing to create
+        # it from)"
+        conts = [x for x in A.walk_no_nested(f.node)
+                 if isinstance(x, ast.Continue)]
+        ok = all(A.unparse(A.call_receiver(c)).startswith('self.inner[')
+                 for c in rec) and all(
+            any(a[0] == 'notin' and a[2] == 'self.inner'
+                for a in cfg.guards(cfg.node(x))) for x in conts) and not any(
+            a[0] == 'notin' and a[2] == 'self.inner'
+            for c in rec for a in cfg.guards(cfg.node(c)))
     ck.require(ok, 'R15.3', f, rec[0] if rec else f.node.name,
                'every child present receives its part of the state', None)
     leaf = [s for s in A.walk_no_nested(f.node) if isinstance(s, ast.Assign)
